@@ -18,7 +18,12 @@ package main
 //   B  replica; at the specification's Snapshot step it takes Data.Clone() (storeFSM.Snapshot), keeps
 //      applying, at Persist marshals the clone (storeFSMSnapshot.Persist), at Restore is replaced by
 //      UnmarshalBinary of those bytes (storeFSM.Restore) followed by the commands after the snapshot;
-//   C  before every command all maps of the catalogue are re-created in shuffled insertion order.
+//   C  before every command all maps of the catalogue are re-created in shuffled insertion order;
+//   D1..Dn  fresh instances that simply apply the same log (the Go runtime randomises the start of every
+//      map iteration, so a decision taken from "the first entry" of a map differs between instances with
+//      probability 1 - 1/entries per instance and command).
+// A behaviour may hold several Snapshot / Persist / Restore rounds: B snapshots itself again after it was
+// restored.
 //
 // After EVERY command:
 //   * return of A vs the specification's expected class; returns of B, C (F) equal to A's (text);
@@ -267,6 +272,14 @@ func (c *mcConc) absHost(http string) string {
 
 var mcShardKeys = [][]string{nil, {"tagA"}}
 
+// sharding type of the specification's CreateMeasurement (b: 0 = HASH, 1 = RANGE)
+func mcShardType(b int64) string {
+	if b == 1 {
+		return meta2.RANGE
+	}
+	return meta2.HASH
+}
+
 // ---- building the protobuf commands ---------------------------------------------------------------
 
 func mcWrap(t proto2.Command_Type, ext *proto.ExtensionDesc, v interface{}) ([]byte, error) {
@@ -345,7 +358,7 @@ func (c *mcConc) build(a mcCmd) ([]byte, error) {
 	case "CreateMeasurement":
 		return mcWrap(proto2.Command_CreateMeasurementCommand, proto2.E_CreateMeasurementCommand_Command,
 			&proto2.CreateMeasurementCommand{DBName: proto.String(db), RpName: proto.String(rp), Name: proto.String(c.conc(a.N)),
-				Ski:        &proto2.ShardKeyInfo{ShardKey: mcShardKeys[a.A], Type: proto.String(meta2.HASH)},
+				Ski:        &proto2.ShardKeyInfo{ShardKey: mcShardKeys[a.A], Type: proto.String(mcShardType(a.B))},
 				EngineType: proto.Uint32(uint32(config.TSSTORE)), InitNumOfShards: proto.Int32(0)})
 	case "MarkMeasurementDelete":
 		return mcWrap(proto2.Command_MarkMeasurementDeleteCommand, proto2.E_MarkMeasurementDeleteCommand_Command,
@@ -375,6 +388,207 @@ func (c *mcConc) build(a mcCmd) ([]byte, error) {
 			&proto2.SetPrivilegeCommand{Username: proto.String(c.conc(a.N)), Database: proto.String(db), Privilege: proto.Int32(int32(a.A))})
 	}
 	return nil, fmt.Errorf("unknown op %q", a.Op)
+}
+
+// ---- unmodelled command types ("Opaque" steps of the specification) ---------------------------------
+//
+// The specification says about them only that the modelled part of the catalogue does not change. The
+// harness builds a command of the kind with arguments drawn from the live catalogue (names of the
+// universe, so existing and absent objects both occur; identifiers a little beyond the ones handed out)
+// and judges it instance against instance: every instance must return the same and hold the same
+// catalogue, also through snapshot and restore; a command that fails must leave the catalogue unchanged;
+// the structural invariants must hold.
+const mcOpaqueKinds = 15 // = OpaqueKinds of MetaCatalog.tla
+
+func (c *mcConc) opaque(A *meta2.Data, k int64, sclean bool) ([]byte, string, *mcSubOp, error) {
+	rng := c.rng
+	pick := func(l []string) string {
+		if len(l) == 0 {
+			return ""
+		}
+		return l[rng.Intn(len(l))]
+	}
+	db, rp, mst := c.conc(pick(c.dbs)), c.conc(pick(c.rps)), c.conc(pick(c.msts))
+	if k == 13 && sclean { // the model's PruneGroups takes schemas as empty: schemas only with schema-clean off
+		k = 14
+	}
+	switch k {
+	case 0:
+		v := &proto2.CreateSubscriptionCommand{Name: proto.String(fmt.Sprintf("sub%d", rng.Intn(2))), Database: proto.String(db), RetentionPolicy: proto.String(rp),
+			Mode: proto.String([]string{"ALL", "ANY"}[rng.Intn(2)]), Destinations: []string{fmt.Sprintf("udp://127.0.0.1:%d", 9000+rng.Intn(2))}}
+		raw, err := mcWrap(proto2.Command_CreateSubscriptionCommand, proto2.E_CreateSubscriptionCommand_Command, v)
+		return raw, fmt.Sprintf("CreateSubscription %s %s.%s", v.GetName(), db, rp),
+			&mcSubOp{create: true, db: db, rp: rp, name: v.GetName(), mode: v.GetMode(), dests: v.GetDestinations()}, err
+	case 1:
+		name := fmt.Sprintf("sub%d", rng.Intn(2))
+		if rng.Intn(6) == 0 {
+			name = "" // all subscriptions of the database
+		}
+		raw, err := mcWrap(proto2.Command_DropSubscriptionCommand, proto2.E_DropSubscriptionCommand_Command,
+			&proto2.DropSubscriptionCommand{Name: proto.String(name), Database: proto.String(db), RetentionPolicy: proto.String(rp)})
+		return raw, fmt.Sprintf("DropSubscription %q %s.%s", name, db, rp), &mcSubOp{db: db, rp: rp, name: name}, err
+	case 2:
+		name := fmt.Sprintf("cq%d", rng.Intn(2))
+		q := fmt.Sprintf("CREATE CONTINUOUS QUERY %s ON %s BEGIN SELECT mean(v) INTO m_%d FROM %s GROUP BY time(1h) END", name, db, rng.Intn(2), mst)
+		raw, err := mcWrap(proto2.Command_CreateContinuousQueryCommand, proto2.E_CreateContinuousQueryCommand_Command,
+			&proto2.CreateContinuousQueryCommand{Database: proto.String(db), Name: proto.String(name), Query: proto.String(q)})
+		return raw, "CreateContinuousQuery " + name + " ON " + db, nil, err
+	case 3:
+		name := fmt.Sprintf("cq%d", rng.Intn(2))
+		raw, err := mcWrap(proto2.Command_DropContinuousQueryCommand, proto2.E_DropContinuousQueryCommand_Command,
+			&proto2.DropContinuousQueryCommand{Name: proto.String(name), Database: proto.String(db)})
+		return raw, "DropContinuousQuery " + name + " ON " + db, nil, err
+	case 4:
+		v := &proto2.ContinuousQueryReportCommand{}
+		for i := 0; i < 2; i++ {
+			v.CQStates = append(v.CQStates, &proto2.CQState{Name: proto.String(fmt.Sprintf("cq%d", i)), LastRunTime: proto.Int64(c.tm(int64(rng.Intn(8))).UnixNano())})
+		}
+		raw, err := mcWrap(proto2.Command_ContinuousQueryReportCommand, proto2.E_ContinuousQueryReportCommand_Command, v)
+		return raw, "ContinuousQueryReport", nil, err
+	case 5:
+		raw, err := mcWrap(proto2.Command_NotifyCQLeaseChangedCommand, proto2.E_NotifyCQLeaseChangedCommand_Command, &proto2.NotifyCQLeaseChangedCommand{})
+		return raw, "NotifyCQLeaseChanged", nil, err
+	case 6:
+		u := c.conc(fmt.Sprintf("u%d", 1+rng.Intn(2)))
+		raw, err := mcWrap(proto2.Command_UpdateUserCommand, proto2.E_UpdateUserCommand_Command,
+			&proto2.UpdateUserCommand{Name: proto.String(u), Hash: proto.String(fmt.Sprintf("hash-x%d", rng.Intn(2)))})
+		return raw, "UpdateUser " + u, nil, err
+	case 7:
+		h := fmt.Sprintf("127.0.1.%d:8086", 1+rng.Intn(3))
+		raw, err := mcWrap(proto2.Command_RegisterQueryIDOffsetCommand, proto2.E_RegisterQueryIDOffsetCommand_Command, &proto2.RegisterQueryIDOffsetCommand{Host: proto.String(h)})
+		return raw, "RegisterQueryIDOffset " + h, nil, err
+	case 8:
+		id := uint64(1 + rng.Intn(int(A.MaxShardID)+2))
+		raw, err := mcWrap(proto2.Command_UpdateShardInfoTierCommand, proto2.E_UpdateShardInfoTierCommand_Command,
+			&proto2.UpdateShardInfoTierCommand{ShardID: proto.Uint64(id), Tier: proto.Uint64(uint64(1 + rng.Intn(3))), DbName: proto.String(db), RpName: proto.String(rp)})
+		return raw, fmt.Sprintf("UpdateShardInfoTier %d %s.%s", id, db, rp), nil, err
+	case 9:
+		id := uint64(1 + rng.Intn(int(A.MaxIndexID)+2))
+		raw, err := mcWrap(proto2.Command_UpdateIndexInfoTierCommand, proto2.E_UpdateIndexInfoTierCommand_Command,
+			&proto2.UpdateIndexInfoTierCommand{IndexID: proto.Uint64(id), Tier: proto.Uint64(uint64(1 + rng.Intn(3))), DbName: proto.String(db), RpName: proto.String(rp)})
+		return raw, fmt.Sprintf("UpdateIndexInfoTier %d %s.%s", id, db, rp), nil, err
+	case 10:
+		raw, err := mcWrap(proto2.Command_MarkTakeoverCommand, proto2.E_MarkTakeoverCommand_Command, &proto2.MarkTakeoverCommand{Enable: proto.Bool(rng.Intn(2) == 0)})
+		return raw, "MarkTakeover", nil, err
+	case 11:
+		raw, err := mcWrap(proto2.Command_MarkBalancerCommand, proto2.E_MarkBalancerCommand_Command, &proto2.MarkBalancerCommand{Enable: proto.Bool(rng.Intn(2) == 0)})
+		return raw, "MarkBalancer", nil, err
+	case 12:
+		pt := uint32(rng.Intn(int(A.ClusterPtNum) + 2))
+		raw, err := mcWrap(proto2.Command_UpdatePtVersionCommand, proto2.E_UpdatePtVersionCommand_Command, &proto2.UpdatePtVersionCommand{Db: proto.String(db), Pt: proto.Uint32(pt)})
+		return raw, fmt.Sprintf("UpdatePtVersion %s %d", db, pt), nil, err
+	case 13:
+		f := &proto2.FieldSchema{FieldName: proto.String(fmt.Sprintf("f%d", rng.Intn(2))), FieldType: proto.Int32([]int32{1, 3}[rng.Intn(2)])}
+		raw, err := mcWrap(proto2.Command_UpdateSchemaCommand, proto2.E_UpdateSchemaCommand_Command,
+			&proto2.UpdateSchemaCommand{Database: proto.String(db), RpName: proto.String(rp), Measurement: proto.String(mst), FieldToCreate: []*proto2.FieldSchema{f}})
+		return raw, fmt.Sprintf("UpdateSchema %s.%s.%s %s:%d", db, rp, mst, f.GetFieldName(), f.GetFieldType()), nil, err
+	case 14:
+		id := uint64(1 + rng.Intn(int(A.MaxShardID)+2))
+		v := &proto2.ShardIdentifier{ShardID: proto.Uint64(id), ShardGroupID: proto.Uint64(uint64(1 + rng.Intn(int(A.MaxShardGroupID)+1))), OwnerDb: proto.String(db),
+			OwnerPt: proto.Uint32(0), Policy: proto.String(rp), ShardType: proto.String(meta2.HASH), DownSampleLevel: proto.Int64(int64(rng.Intn(3))),
+			DownSampleID: proto.Uint64(uint64(rng.Intn(2))), ReadOnly: proto.Bool(rng.Intn(2) == 0)}
+		raw, err := mcWrap(proto2.Command_UpdateShardDownSampleInfoCommand, proto2.E_UpdateShardDownSampleInfoCommand_Command, &proto2.UpdateShardDownSampleInfoCommand{Ident: v})
+		return raw, fmt.Sprintf("UpdateShardDownSampleInfo %d %s.%s", id, db, rp), nil, err
+	}
+	return nil, "", nil, fmt.Errorf("unknown opaque kind %d", k)
+}
+
+// mcSubShadow is the deviation model of clone_shares_subscriptions: RetentionPolicyInfo.Clone copies the
+// slice HEADER of Subscriptions, so the snapshot object reads the live catalogue's backing array when it is
+// marshalled later. The model replays the subscription commands on slices of the same element type with
+// the same built-in operations the catalogue code uses (append / reslice), copies the headers at Snapshot
+// and reads them at Persist: Go's own slice semantics give the exact prediction.
+type mcSubOp struct {
+	create       bool
+	db, rp, name string
+	mode         string
+	dests        []string
+}
+
+type mcSubShadow struct {
+	live      map[string][]meta2.SubscriptionInfo // db \x00 rp -> the replica's slice
+	snap      map[string][]meta2.SubscriptionInfo // headers as copied by Clone at Snapshot
+	atPersist map[string][]meta2.SubscriptionInfo // what Marshal read through those headers at Persist
+	maxID     uint64                              // the replica's MaxSubscriptionID: one more per successful command
+}
+
+func mcNewSubShadow() *mcSubShadow {
+	return &mcSubShadow{live: map[string][]meta2.SubscriptionInfo{}, snap: map[string][]meta2.SubscriptionInfo{}, atPersist: map[string][]meta2.SubscriptionInfo{}}
+}
+
+// apply mirrors Data.CreateSubscription / DropSubscription for a command that returned ok
+func (s *mcSubShadow) apply(op *mcSubOp) {
+	key := op.db + "\x00" + op.rp
+	s.maxID++
+	switch {
+	case op.create:
+		s.live[key] = append(s.live[key], meta2.SubscriptionInfo{Name: op.name, Mode: op.mode, Destinations: op.dests})
+	case op.name == "": // all subscriptions of the database
+		for k := range s.live {
+			if strings.HasPrefix(k, op.db+"\x00") {
+				s.live[k] = s.live[k][:0]
+			}
+		}
+	default:
+		l := s.live[key]
+		for i := range l {
+			if l[i].Name == op.name {
+				s.live[key] = append(l[:i], l[i+1:]...)
+				break
+			}
+		}
+	}
+}
+
+// sync drops the policies that left the catalogue (their slices go with them)
+func (s *mcSubShadow) sync(d *meta2.Data) {
+	for k := range s.live {
+		p := strings.SplitN(k, "\x00", 2)
+		if dbi := d.Databases[p[0]]; dbi == nil || dbi.RetentionPolicies[p[1]] == nil {
+			delete(s.live, k)
+		}
+	}
+}
+
+func (s *mcSubShadow) snapshot() {
+	s.snap = map[string][]meta2.SubscriptionInfo{}
+	for k, l := range s.live {
+		s.snap[k] = l // header copy, as `other := rpi` does
+	}
+}
+
+func (s *mcSubShadow) persist() {
+	s.atPersist = map[string][]meta2.SubscriptionInfo{}
+	for k, l := range s.snap {
+		s.atPersist[k] = append([]meta2.SubscriptionInfo(nil), l...)
+	}
+}
+
+// resetFrom: the replica was replaced by an unmarshalled catalogue (fresh slices of exactly the length)
+func (s *mcSubShadow) resetFrom(d *meta2.Data) {
+	s.live = map[string][]meta2.SubscriptionInfo{}
+	s.maxID = d.MaxSubscriptionID
+	for db, dbi := range d.Databases {
+		for rp, rpi := range dbi.RetentionPolicies {
+			if len(rpi.Subscriptions) > 0 {
+				l := make([]meta2.SubscriptionInfo, len(rpi.Subscriptions))
+				copy(l, rpi.Subscriptions)
+				s.live[db+"\x00"+rp] = l
+			}
+		}
+	}
+}
+
+func mcSubsEqual(a, b []meta2.SubscriptionInfo) bool {
+	if len(a) != len(b) {
+		return false
+	}
+	for i := range a {
+		if a[i].Name != b[i].Name || a[i].Mode != b[i].Mode || strings.Join(a[i].Destinations, ",") != strings.Join(b[i].Destinations, ",") {
+			return false
+		}
+	}
+	return true
 }
 
 // ---- applying a command to real meta.Data (level 1) ------------------------------------------------
@@ -437,8 +651,12 @@ func mcApply(d *meta2.Data, raw []byte) (err error, panicked string) {
 	case proto2.Command_DropDatabaseCommand: // storeFSM.applyDropDatabaseCommand (no continuous queries in the model)
 		ext, _ := proto.GetExtension(&cmd, proto2.E_DropDatabaseCommand_Command)
 		v := ext.(*proto2.DropDatabaseCommand)
-		if d.Database(v.GetName()) == nil {
+		dbi := d.Database(v.GetName())
+		if dbi == nil {
 			return nil, ""
+		}
+		if len(dbi.ContinuousQueries) > 0 { // (the store's cq name list / schedule is not part of the catalogue)
+			d.MaxCQChangeID++
 		}
 		d.DropDatabase(v.GetName())
 		return nil, ""
@@ -470,6 +688,47 @@ func mcApply(d *meta2.Data, raw []byte) (err error, panicked string) {
 		return meta2.ApplyDropUser(d, &cmd), ""
 	case proto2.Command_SetPrivilegeCommand:
 		return meta2.ApplySetPrivilege(d, &cmd), ""
+	// ---- unmodelled types (Opaque steps)
+	case proto2.Command_CreateSubscriptionCommand:
+		return meta2.ApplyCreateSubscription(d, &cmd), ""
+	case proto2.Command_DropSubscriptionCommand:
+		return meta2.ApplyDropSubscription(d, &cmd), ""
+	case proto2.Command_CreateContinuousQueryCommand: // storeFSM.applyCreateContinuousQueryCommand
+		ext, _ := proto.GetExtension(&cmd, proto2.E_CreateContinuousQueryCommand_Command)
+		v := ext.(*proto2.CreateContinuousQueryCommand)
+		return d.CreateContinuousQuery(v.GetDatabase(), v.GetName(), v.GetQuery()), ""
+	case proto2.Command_DropContinuousQueryCommand: // storeFSM.applyDropContinuousQueryCommand
+		ext, _ := proto.GetExtension(&cmd, proto2.E_DropContinuousQueryCommand_Command)
+		v := ext.(*proto2.DropContinuousQueryCommand)
+		_, e := d.DropContinuousQuery(v.GetName(), v.GetDatabase())
+		return e, ""
+	case proto2.Command_ContinuousQueryReportCommand:
+		return meta2.ApplyContinuousQueryReport(d, &cmd), ""
+	case proto2.Command_NotifyCQLeaseChangedCommand: // storeFSM.applyNotifyCQLeaseChangedCommand
+		d.MaxCQChangeID++
+		return nil, ""
+	case proto2.Command_UpdateUserCommand:
+		return meta2.ApplyUpdateUser(d, &cmd), ""
+	case proto2.Command_RegisterQueryIDOffsetCommand:
+		return meta2.ApplyRegisterQueryIDOffset(d, &cmd), ""
+	case proto2.Command_UpdateShardInfoTierCommand:
+		return meta2.ApplyUpdateShardInfoTier(d, &cmd), ""
+	case proto2.Command_UpdateIndexInfoTierCommand:
+		return meta2.ApplyUpdateIndexInfoTier(d, &cmd), ""
+	case proto2.Command_MarkTakeoverCommand: // storeFSM.applyMarkTakeoverCommand
+		ext, _ := proto.GetExtension(&cmd, proto2.E_MarkTakeoverCommand_Command)
+		d.MarkTakeover(ext.(*proto2.MarkTakeoverCommand).GetEnable())
+		return nil, ""
+	case proto2.Command_MarkBalancerCommand: // storeFSM.applyMarkBalancerCommand
+		ext, _ := proto.GetExtension(&cmd, proto2.E_MarkBalancerCommand_Command)
+		d.MarkBalancer(ext.(*proto2.MarkBalancerCommand).GetEnable())
+		return nil, ""
+	case proto2.Command_UpdatePtVersionCommand:
+		return meta2.ApplyUpdatePtVersion(d, &cmd), ""
+	case proto2.Command_UpdateSchemaCommand:
+		return meta2.ApplyUpdateSchema(d, &cmd), ""
+	case proto2.Command_UpdateShardDownSampleInfoCommand:
+		return meta2.ApplyUpdateShardDownSampleInfo(d, &cmd), ""
 	}
 	return nil, fmt.Sprintf("command type %v not dispatched by the harness", cmd.GetType())
 }
@@ -520,6 +779,10 @@ func mcClassify(err error, panicked string) string {
 		return "duration_too_low"
 	case err == meta2.ErrMeasurementExists:
 		return "mst_exists"
+	case strings.HasPrefix(msg, "sharding type are not equal"): // ErrShardingTypeNotEqual
+		return "shard_type_conflict"
+	case errno.Equal(err, errno.ConflictWithRep):
+		return "conflict_with_rep"
 	case err == meta2.ErrUserExists:
 		return "user_exists"
 	case err == meta2.ErrUserNotFound:
@@ -532,9 +795,9 @@ func mcClassify(err error, panicked string) string {
 	return "other: " + msg
 }
 
-func mcNewData() *meta2.Data {
-	// as meta.NewStore builds it; one partition per node
-	return &meta2.Data{Index: 1, PtNumPerNode: 1, TakeOverEnabled: true, BalancerEnabled: true, NumOfShards: 0, UpdateNodeTmpIndexCommandStart: 1}
+func mcNewData(ppn uint32) *meta2.Data {
+	// as meta.NewStore builds it; ppn = [meta] ptnum-pernode
+	return &meta2.Data{Index: 1, PtNumPerNode: ppn, TakeOverEnabled: true, BalancerEnabled: true, NumOfShards: 0, UpdateNodeTmpIndexCommandStart: 1}
 }
 
 // ---- canonical dump of the whole catalogue (reflection) --------------------------------------------
@@ -762,7 +1025,7 @@ func (c *mcConc) project(d *meta2.Data, ghost map[uint64]int64, sclean bool) map
 		"nodes": nodes(d.DataNodes), "sql": nodes(d.SqlNodes),
 		"maxNode": d.MaxNodeID, "maxConn": d.MaxConnID, "ptNum": d.ClusterPtNum,
 		"maxSG": d.MaxShardGroupID, "maxSh": d.MaxShardID, "maxMst": d.MaxMstID, "maxIG": d.MaxIndexGroupID, "maxIdx": d.MaxIndexID,
-		"sclean": sclean, "rgmap": d.ReplicaGroups != nil,
+		"sclean": sclean, "rgmap": d.ReplicaGroups != nil, "ppn": d.PtNumPerNode,
 	}
 	ptv, rgs, dbs := map[string]interface{}{}, map[string]interface{}{}, map[string]interface{}{}
 	for _, adb := range c.dbs {
@@ -805,16 +1068,19 @@ func (c *mcConc) project(d *meta2.Data, ghost map[uint64]int64, sclean bool) map
 				origin := influx.GetOriginMstName(key)
 				var ver int64 = -1
 				fmt.Sscanf(key[len(origin)+1:], "%d", &ver)
-				sk, skg := int64(-1), int64(-1)
+				sk, skg, ty := int64(-1), int64(-1), ""
 				if len(msti.ShardKeys) == 1 {
 					sk = int64(len(msti.ShardKeys[0].ShardKey))
 					skg = int64(msti.ShardKeys[0].ShardGroup)
+				}
+				if len(msti.ShardKeys) > 0 { // what createShards / validMeasurementShardType read
+					ty = msti.ShardKeys[0].Type
 				}
 				n := c.abstract(origin)
 				if key != msti.Name || origin != msti.OriginName() {
 					n = "?" + key + "/" + msti.Name
 				}
-				ms = append(ms, map[string]interface{}{"n": n, "v": ver, "id": msti.ID, "mark": msti.MarkDeleted, "sk": sk, "skg": skg})
+				ms = append(ms, map[string]interface{}{"n": n, "v": ver, "id": msti.ID, "mark": msti.MarkDeleted, "sk": sk, "skg": skg, "ty": ty})
 			}
 			sgs := []interface{}{}
 			for i := range rpi.ShardGroups {
@@ -966,6 +1232,14 @@ func (c *mcConc) learnUniverse(st interface{}) {
 type mcIdHistory struct {
 	ever map[string]map[uint64]bool // kind -> ids ever observed
 	cur  map[string]map[uint64]bool
+	// measurement versions (name_NNNN) observed in a policy since the policy exists: db \x00 rp -> keys
+	everV map[string]map[string]bool
+	curV  map[string]map[string]bool
+}
+
+func mcNewIdHistory() *mcIdHistory {
+	return &mcIdHistory{ever: map[string]map[uint64]bool{}, cur: map[string]map[uint64]bool{},
+		everV: map[string]map[string]bool{}, curV: map[string]map[string]bool{}}
 }
 
 func mcCollectIds(d *meta2.Data) (map[string][]uint64, map[string]map[uint64]bool) {
@@ -1041,6 +1315,35 @@ func mcInvariants(d *meta2.Data, hist *mcIdHistory, ghostDur map[uint64]time.Dur
 			hist.ever[k][id] = true
 		}
 	}
+	// VersionsNeverReused: a measurement version that appears now, was not there before this command, but was
+	// seen earlier in the life of this policy
+	nowV := map[string]map[string]bool{}
+	for dbName, dbi := range d.Databases {
+		for rpName, rpi := range dbi.RetentionPolicies {
+			key := dbName + "\x00" + rpName
+			nowV[key] = map[string]bool{}
+			for k := range rpi.Measurements {
+				nowV[key][k] = true
+				if !hist.curV[key][k] && hist.everV[key][k] {
+					set("VersionsNeverReused", fmt.Sprintf("%s.%s: measurement version %s handed out again", dbName, rpName, k))
+				}
+			}
+		}
+	}
+	for key := range hist.everV {
+		if _, ok := nowV[key]; !ok { // the version counters of a policy go with the policy
+			delete(hist.everV, key)
+		}
+	}
+	for key, cur := range nowV {
+		if hist.everV[key] == nil {
+			hist.everV[key] = map[string]bool{}
+		}
+		for k := range cur {
+			hist.everV[key][k] = true
+		}
+	}
+	hist.curV = nowV
 	nodeIDs := map[uint64]bool{}
 	for i := range d.DataNodes {
 		nodeIDs[d.DataNodes[i].ID] = true
@@ -1217,11 +1520,12 @@ type mcFsm struct {
 	index uint64
 	snap  raft.FSMSnapshot
 	img   []byte
+	last  error // the error value the last Apply returned (nil for ok / panic / other values)
 }
 
-func mcNewFsm(sclean bool) *mcFsm {
+func mcNewFsm(sclean bool, ppn uint32) *mcFsm {
 	cfg := config.NewMeta()
-	cfg.PtNumPerNode = 1
+	cfg.PtNumPerNode = ppn
 	cfg.NumOfShards = 0
 	cfg.RetentionAutoCreate = false
 	cfg.ExpandShardsEnable = false
@@ -1251,6 +1555,7 @@ func (f *mcFsm) Apply(raw []byte) (ret string) {
 		}
 	}()
 	f.index++
+	f.last = nil
 	r := f.fsm.Apply(&raft.Log{Index: f.index, Term: 1, Type: raft.LogCommand, Data: raw})
 	if r == nil {
 		return "ok"
@@ -1259,6 +1564,7 @@ func (f *mcFsm) Apply(raw []byte) (ret string) {
 		if e == nil {
 			return "ok"
 		}
+		f.last = e
 		return "error: " + e.Error()
 	}
 	return fmt.Sprintf("value: %v", r)
@@ -1316,11 +1622,17 @@ func mcSharedParts(p interface{}) string {
 //	                             instance, for all of them (those whose real ID is not 0 differ), nothing else;
 //	clone_shares_replica_groups  differences below ReplicaGroups / PtView.*.RGID, and the restored
 //	clone_shares_sql_nodes       below SqlNodes: replica groups, partition view and sql nodes equal the
-//	                             specification's prediction for the as-implemented snapshot.
+//	                             specification's prediction for the as-implemented snapshot;
+//	clone_shares_subscriptions   RetentionPolicies/*/Subscriptions of the restored instance are what the model
+//	                             mcSubShadow predicts (slice header shared between snapshot and live catalogue);
+//	cq_zero_lastrun_wraps        ContinuousQueries/*/LastRunTime is the zero time on the reference and
+//	                             time.Unix(0, time.Time{}.UnixNano()) = 1754-08-30T22:43:41.128654848Z on the
+//	                             restored instance (harness-level model: continuous queries are not in the
+//	                             specification's state).
 //
 // Returns the deviations observed, or an error text.
 func (r *mcRun) attributeReplica(diffs []string, ref, got map[string]interface{}, inSnapshot map[string]bool,
-	gotProj interface{}, predicted []interface{}) ([]string, string) {
+	gotProj interface{}, predicted []interface{}, gotData *meta2.Data, predSubs map[string][]meta2.SubscriptionInfo, predMaxSub uint64) ([]string, string) {
 	devs := map[string]bool{}
 	mstDiff := map[string]bool{}
 	needShared, needFull := false, false
@@ -1341,6 +1653,32 @@ func (r *mcRun) attributeReplica(diffs []string, ref, got map[string]interface{}
 		case seg[0] == "SqlNodes":
 			devs["clone_shares_sql_nodes"] = true
 			needShared = true
+		case len(seg) >= 5 && seg[0] == "Databases" && seg[2] == "RetentionPolicies" && seg[4] == "Subscriptions":
+			// exact prediction: the subscriptions of this policy are what the snapshot's shared slice header showed
+			// when it was marshalled (model mcSubShadow), and the restored node carried on from there
+			var real []meta2.SubscriptionInfo
+			if dbi := gotData.Databases[seg[1]]; dbi != nil && dbi.RetentionPolicies[seg[3]] != nil {
+				real = dbi.RetentionPolicies[seg[3]].Subscriptions
+			}
+			if !mcSubsEqual(real, predSubs[seg[1]+"\x00"+seg[3]]) {
+				return nil, fmt.Sprintf("subscriptions differ, not as the snapshot's shared slice predicts (%+v expected): %s", predSubs[seg[1]+"\x00"+seg[3]], df)
+			}
+			devs["clone_shares_subscriptions"] = true
+		case seg[0] == "MaxSubscriptionID" && r.fired["clone_shares_subscriptions"]:
+			// consequence: the commands after the snapshot found other subscriptions on the restored node
+			if gotData.MaxSubscriptionID != predMaxSub {
+				return nil, fmt.Sprintf("MaxSubscriptionID differs, not as the snapshot's shared slice predicts (%d expected): %s", predMaxSub, df)
+			}
+			devs["clone_shares_subscriptions"] = true
+		case len(seg) == 5 && seg[0] == "Databases" && seg[2] == "ContinuousQueries" && seg[4] == "LastRunTime":
+			// exact prediction: the reference's time is the zero time (the query never ran) and the restored one is
+			// time.Unix(0, time.Time{}.UnixNano()), what ContinuousQueryInfo.Marshal / unmarshal make of it
+			a, _ := mcDig(ref, seg...).(string)
+			g, _ := mcDig(got, seg...).(string)
+			if a != "0" || g != mcFmtTime(time.Unix(0, time.Time{}.UnixNano())) {
+				return nil, "last run time of a continuous query differs, not as the int64 round trip of the zero time: " + df
+			}
+			devs["cq_zero_lastrun_wraps"] = true
 		case len(seg) == 7 && seg[0] == "Databases" && seg[2] == "RetentionPolicies" && (seg[4] == "ShardGroups" || seg[4] == "IndexGroups") && seg[6] == "StartTime":
 			// exact prediction: the reference's start is before MinNanoTime and the restored one is its int64 wrap-around
 			a, _ := mcDig(ref, seg...).(string)
@@ -1496,6 +1834,15 @@ func mcFirst(raws []json.RawMessage) interface{} {
 	return x
 }
 
+// mcExtra = number of plain extra instances (D1..Dn) fed the same log
+const mcExtra = 3
+
+// mcOutcome: what one instance did with a command, in the specification's terms
+type mcOutcome struct {
+	class string
+	proj  string // canonical JSON of the projected catalogue
+}
+
 func mcReplayCase(cs *mcCase) (res mcResult) {
 	res = mcResult{ID: cs.ID, OK: true, Lineage: "both"}
 	defer func() {
@@ -1516,14 +1863,22 @@ func mcReplayCase(cs *mcCase) (res mcResult) {
 	}
 	c.learnUniverse(st0)
 	sclean, _ := st0.(map[string]interface{})["sclean"].(bool)
+	ppn := uint32(1)
+	if v, ok := st0.(map[string]interface{})["ppn"].(int64); ok && v > 0 {
+		ppn = uint32(v)
+	}
 	meta2.InitSchemaCleanEn(sclean)
 
-	A, B, C := mcNewData(), mcNewData(), mcNewData()
-	F := mcNewFsm(sclean)
+	A, B, C := mcNewData(ppn), mcNewData(ppn), mcNewData(ppn)
+	var Ds []*meta2.Data
+	for k := 0; k < mcExtra; k++ {
+		Ds = append(Ds, mcNewData(ppn))
+	}
+	F := mcNewFsm(sclean, ppn)
 	res.Fsm = F != nil
 	meta2.InitSchemaCleanEn(sclean)
 	shuf := rand.New(rand.NewSource(cs.Seed*7919 + int64(cs.ID)))
-	ids := &mcIdHistory{ever: map[string]map[uint64]bool{}, cur: map[string]map[uint64]bool{}}
+	ids := mcNewIdHistory()
 	ghostDur := map[uint64]time.Duration{}
 	ghost := map[uint64]int64{}
 	refreshGhost := func() {
@@ -1531,6 +1886,7 @@ func mcReplayCase(cs *mcCase) (res mcResult) {
 			ghost[id] = c.ticks(d)
 		}
 	}
+	projOf := func(d *meta2.Data) string { return mcJSON(mcCanonTree(c.project(d, ghost, sclean), "")) }
 
 	var snapB *meta2.Data
 	var snapDump map[string]interface{}
@@ -1538,8 +1894,15 @@ func mcReplayCase(cs *mcCase) (res mcResult) {
 	var img []byte
 	var tail [][]byte
 	var tailRets []string
-	phase := "none"
+	phase := "none"      // none -> taken -> persisted -> none
+	restoredOnce := false // B (and F) went through at least one restore
 	restoredKeys := map[string]bool{}
+	subs := mcNewSubShadow()
+	var tailSubOps []*mcSubOp
+	// for the commands after the snapshot whose as-implemented outcome depends on the map order: the predicted
+	// outcomes and the one the reference took (the restored node applies them again and may take another)
+	var tailAlts [][]mcOutcome
+	var tailTaken []int
 
 	var prevD interface{}
 	for i := range cs.Hist {
@@ -1554,14 +1917,29 @@ func mcReplayCase(cs *mcCase) (res mcResult) {
 			stD = prevD
 		}
 		prevD = stD
+		// the as-implemented alternatives: [0] = the one the specification's lineage follows; more than one =
+		// the as-implemented catalogue lets the runtime's map order decide
 		var alt *mcAlt
 		var stI interface{}
-		if len(st.Alt) > 0 {
-			alt = &st.Alt[0]
-			if stI, err = mcDecodeState(alt.St); err != nil {
+		var altJSON []string
+		for k := range st.Alt {
+			x, err := mcDecodeState(st.Alt[k].St)
+			if err != nil {
 				res.OK, res.Infra = false, "cannot decode the specification's alternative state: "+err.Error()
 				return
 			}
+			if k == 0 {
+				alt, stI = &st.Alt[0], x
+			}
+			altJSON = append(altJSON, mcJSON(x))
+		}
+		matchAlt := func(o mcOutcome) int {
+			for k := range st.Alt {
+				if (o.class == st.Alt[k].Exp || st.A == "Opaque") && o.proj == altJSON[k] {
+					return k
+				}
+			}
+			return -1
 		}
 		// the specification's prediction of A on the lineage the real code follows
 		expectedA := func() interface{} {
@@ -1574,9 +1952,10 @@ func mcReplayCase(cs *mcCase) (res mcResult) {
 		switch st.A {
 		case "Snapshot":
 			snapB = B.Clone() // storeFSM.Snapshot
-			snapDump = mcDump(A)
+			snapDump = mcDump(B)
 			snapKeys = mcMeasurementKeys(snapDump)
-			tail, tailRets = nil, nil
+			tail, tailRets, tailSubOps, tailAlts, tailTaken = nil, nil, nil, nil, nil
+			subs.snapshot()
 			phase = "taken"
 			if F != nil {
 				if F.snap, err = F.fsm.Snapshot(); err != nil {
@@ -1590,6 +1969,7 @@ func mcReplayCase(cs *mcCase) (res mcResult) {
 				run.fail(i, st.A, "C15", "MarshalBinary of the snapshot: "+err.Error())
 				return
 			}
+			subs.persist()
 			phase = "persisted"
 			if F != nil {
 				sink := &mcSink{}
@@ -1606,7 +1986,7 @@ func mcReplayCase(cs *mcCase) (res mcResult) {
 				run.fail(i, st.A, "C15", "UnmarshalBinary of the snapshot: "+err.Error())
 				return
 			}
-			nb.PtNumPerNode = 1
+			nb.PtNumPerNode = ppn
 			res.Restored = true
 			// (1) what was persisted is the catalogue at the moment of Snapshot
 			var predImg []interface{}
@@ -1622,7 +2002,7 @@ func mcReplayCase(cs *mcCase) (res mcResult) {
 			res.DumpCmps++
 			if diffs := mcDiffOf(snapDump, nbDump); len(diffs) > 0 {
 				refreshGhost()
-				devs, why := run.attributeReplica(diffs, snapDump, nbDump, snapKeys, mcCanonTree(c.project(nb, ghost, sclean), ""), predImg)
+				devs, why := run.attributeReplica(diffs, snapDump, nbDump, snapKeys, mcCanonTree(c.project(nb, ghost, sclean), ""), predImg, nb, subs.atPersist, nb.MaxSubscriptionID)
 				if why != "" {
 					run.fail(i, st.A, "C15", "the restored snapshot is not the catalogue at Snapshot time: "+why+" | "+strings.Join(diffs, "; "))
 					return
@@ -1632,8 +2012,35 @@ func mcReplayCase(cs *mcCase) (res mcResult) {
 				}
 			}
 			// (2) then the commands after the snapshot index are applied again
+			subs.resetFrom(nb)
+			parted := ""
 			for k, raw := range tail {
 				e, pn := mcApply(nb, raw)
+				if tailSubOps[k] != nil && e == nil && pn == "" {
+					subs.apply(tailSubOps[k])
+				}
+				subs.sync(nb)
+				if k < len(tailAlts) && tailAlts[k] != nil && !run.cloneFired() {
+					// known finding: this command's outcome depends on the map order; the restored node must take
+					// exactly one of the predicted outcomes, not necessarily the reference's
+					refreshGhost()
+					o := mcOutcome{mcClassify(e, pn), projOf(nb)}
+					ka := -1
+					for j := range tailAlts[k] {
+						if o == tailAlts[k][j] {
+							ka = j
+						}
+					}
+					if ka < 0 {
+						run.fail(i, st.A, "C15", fmt.Sprintf("command %d after the snapshot, whose outcome depends on the map order, took none of the %d predicted outcomes on the restored node (class %s)", k, len(tailAlts[k]), o.class))
+						return
+					}
+					if ka != tailTaken[k] {
+						parted = fmt.Sprintf("step %d Restore: command %d after the snapshot took predicted outcome %d on the restored node, %d on the node that applied everything", i, k, ka, tailTaken[k])
+						break
+					}
+					continue
+				}
 				if got := mcRetText(e, pn); got != tailRets[k] {
 					if !run.cloneFired() {
 						run.fail(i, st.A, "C15", fmt.Sprintf("command %d after the snapshot returns %q on the restored node, %q on the node that applied everything", k, got, tailRets[k]))
@@ -1641,22 +2048,63 @@ func mcReplayCase(cs *mcCase) (res mcResult) {
 					}
 				}
 			}
+			if parted != "" {
+				run.known("template_by_map_order", parted)
+				res.Stopped = true
+				res.Lineage = run.lineage
+				return
+			}
 			B = nb
 			for k := range snapKeys {
 				restoredKeys[k] = true
 			}
-			phase = "restored"
+			phase = "none"
+			restoredOnce = true
 			if F != nil {
 				if err = F.fsm.Restore(io.NopCloser(bytes.NewReader(F.img))); err != nil {
 					run.fail(i, st.A, "C15", "FSM.Restore: "+err.Error())
 					return
 				}
-				for _, raw := range tail {
-					F.Apply(raw)
+				for k, raw := range tail {
+					retF := F.Apply(raw)
+					if k < len(tailAlts) && tailAlts[k] != nil && !run.cloneFired() {
+						cl := "other: " + retF
+						if retF == "ok" || F.last != nil {
+							cl = mcClassify(F.last, "")
+						}
+						o := mcOutcome{cl, projOf(F.Data())}
+						ka := -1
+						for j := range tailAlts[k] {
+							if o == tailAlts[k][j] {
+								ka = j
+							}
+						}
+						if ka < 0 {
+							run.fail(i, st.A, "C15", fmt.Sprintf("command %d after the snapshot, whose outcome depends on the map order, took none of the %d predicted outcomes on the restored storeFSM (class %s)", k, len(tailAlts[k]), cl))
+							return
+						}
+						if ka != tailTaken[k] {
+							run.known("template_by_map_order", fmt.Sprintf("step %d Restore: command %d after the snapshot took predicted outcome %d on the restored storeFSM, %d on the node that applied everything", i, k, ka, tailTaken[k]))
+							res.Stopped = true
+							res.Lineage = run.lineage
+							return
+						}
+					}
 				}
 			}
 		default:
-			raw, err := c.build(st.Args)
+			opaque := st.A == "Opaque"
+			var raw []byte
+			var err error
+			var subOp *mcSubOp
+			if opaque {
+				var what string
+				if raw, what, subOp, err = c.opaque(A, st.Args.A, sclean); err == nil {
+					st.Args.N = what // for the messages
+				}
+			} else {
+				raw, err = c.build(st.Args)
+			}
 			if err != nil {
 				res.OK, res.Infra = false, "cannot build command: "+err.Error()
 				return
@@ -1669,6 +2117,7 @@ func mcReplayCase(cs *mcCase) (res mcResult) {
 			if phase == "taken" || phase == "persisted" {
 				tail = append(tail, raw)
 				tailRets = append(tailRets, retA)
+				tailSubOps = append(tailSubOps, subOp)
 			}
 			if class == "panic" {
 				// the process would be gone: nothing after this step can be judged
@@ -1685,12 +2134,14 @@ func mcReplayCase(cs *mcCase) (res mcResult) {
 				return
 			}
 			// ---- conformance of A with the specification (return class and projected state)
-			mcInvariants(A, &mcIdHistory{ever: map[string]map[uint64]bool{}, cur: map[string]map[uint64]bool{}}, ghostDur) // records creation durations
+			mcInvariants(A, mcNewIdHistory(), ghostDur) // records creation durations
 			refreshGhost()
 			projA := mcCanonTree(c.project(A, ghost, sclean), "")
 			pj := mcJSON(projA)
-			matchD := class == st.Exp && pj == mcJSON(stD)
-			matchI := alt != nil && class == alt.Exp && pj == mcJSON(stI)
+			outA := mcOutcome{class, pj}
+			// (the specification does not say what an unmodelled command returns, only that the modelled state stays)
+			matchD := (class == st.Exp || opaque) && pj == mcJSON(stD)
+			kA := matchAlt(outA) // which as-implemented alternative the reference followed
 			explain := func(exp string, want interface{}) string {
 				d := mcDiffOf(want, projA)
 				return fmt.Sprintf("%+v returned %q (class %s, expected %s); state differences (specification != real): %s", st.Args, retA, class, exp, strings.Join(d, "; "))
@@ -1702,7 +2153,7 @@ func mcReplayCase(cs *mcCase) (res mcResult) {
 					return
 				}
 			case run.lineage == "impl":
-				if !matchI {
+				if kA < 0 {
 					run.fail(i, st.A, "spec", "(as-implemented lineage) "+explain(alt.Exp, stI))
 					return
 				}
@@ -1712,7 +2163,7 @@ func mcReplayCase(cs *mcCase) (res mcResult) {
 			default: // both lineages possible so far, and they part here
 				if matchD {
 					run.lineage = "design"
-				} else if matchI {
+				} else if kA >= 0 {
 					run.lineage = "impl"
 					for _, dv := range alt.Fired {
 						run.known(dv, fmt.Sprintf("step %d: %s", i, explain(st.Exp, stD)))
@@ -1721,6 +2172,20 @@ func mcReplayCase(cs *mcCase) (res mcResult) {
 					run.fail(i, st.A, "spec", explain(st.Exp, stD)+" | nor the as-implemented prediction: "+explain(alt.Exp, stI))
 					return
 				}
+			}
+			if phase == "taken" || phase == "persisted" { // (aligned with tail)
+				var alts []mcOutcome
+				if run.lineage == "impl" && len(st.Alt) > 1 {
+					for k := range st.Alt {
+						exp := st.Alt[k].Exp
+						if opaque {
+							exp = class
+						}
+						alts = append(alts, mcOutcome{exp, altJSON[k]})
+					}
+				}
+				tailAlts = append(tailAlts, alts)
+				tailTaken = append(tailTaken, kA)
 			}
 			// ---- C16 on the real structure
 			res.InvEvals++
@@ -1747,20 +2212,94 @@ func mcReplayCase(cs *mcCase) (res mcResult) {
 			}
 			// ---- C15: the other instances
 			eB, pB := mcApply(B, raw)
+			if subOp != nil && eB == nil && pB == "" {
+				subs.apply(subOp)
+			}
+			subs.sync(B)
 			mcShuffle(C, shuf)
 			eC, pC := mcApply(C, raw)
 			retB, retC := mcRetText(eB, pB), mcRetText(eC, pC)
+			outs := []mcOutcome{outA, {mcClassify(eC, pC), ""}}
+			names := []string{"reference", "instance with shuffled maps"}
+			insts := []*meta2.Data{A, C}
+			retDs := make([]string, len(Ds))
+			for k, D := range Ds {
+				eD, pD := mcApply(D, raw)
+				retDs[k] = mcRetText(eD, pD)
+				outs = append(outs, mcOutcome{mcClassify(eD, pD), ""})
+				names = append(names, fmt.Sprintf("fresh instance %d", k+1))
+				insts = append(insts, D)
+			}
+			retF := ""
+			if F != nil {
+				retF = F.Apply(raw)
+			}
+			if run.lineage == "impl" && len(st.Alt) > 1 {
+				// The as-implemented catalogue lets the map order decide (known finding): every instance must
+				// have taken exactly one of the predicted outcomes. If they all took the one the specification
+				// follows the behaviour goes on; otherwise the replicas have parted and nothing after this step
+				// can be predicted.
+				if !run.fired["shardtype_check_skips_same_name"] {
+					run.fail(i, st.A, "spec", fmt.Sprintf("%+v: the specification predicts a map-order dependent outcome although no deviation that mixes sharding types has fired", st.Args))
+					return
+				}
+				if !run.cloneFired() {
+					outs = append(outs, mcOutcome{mcClassify(eB, pB), ""})
+					names = append(names, "replica (phase "+phase+")")
+					insts = append(insts, B)
+					if F != nil {
+						cl := "other: " + retF
+						if retF == "ok" || F.last != nil {
+							cl = mcClassify(F.last, "")
+						}
+						outs = append(outs, mcOutcome{cl, ""})
+						names = append(names, "storeFSM instance")
+						insts = append(insts, F.Data())
+					}
+				}
+				taken := map[int]bool{}
+				for k := range outs {
+					if k > 0 {
+						outs[k].proj = projOf(insts[k])
+					}
+					ka := matchAlt(outs[k])
+					if ka < 0 {
+						run.fail(i, st.A, "C15", fmt.Sprintf("%+v on a catalogue whose outcome depends on the map order: the %s (class %s) took none of the %d predicted outcomes; it differs from the reference in: %s",
+							st.Args, names[k], outs[k].class, len(st.Alt), strings.Join(mcDiffOf(mcDump(A), mcDump(insts[k])), "; ")))
+						return
+					}
+					taken[ka] = true
+				}
+				if len(taken) > 1 || !taken[0] {
+					var ks []string
+					for k := range outs {
+						ks = append(ks, fmt.Sprintf("%s: outcome %d (%s)", names[k], matchAlt(outs[k]), outs[k].class))
+					}
+					run.known("template_by_map_order", fmt.Sprintf("step %d %+v: instances fed the same log part, each following one of the %d predicted outcomes: %s",
+						i, st.Args, len(st.Alt), strings.Join(ks, "; ")))
+					res.Stopped = true
+					res.Lineage = run.lineage
+					return
+				}
+			}
 			if retC != retA {
 				run.fail(i, st.A, "C15", fmt.Sprintf("%+v returns %q on the instance with shuffled maps, %q on the reference", st.Args, retC, retA))
 				return
 			}
-			if retB != retA && !(phase == "restored" && run.cloneFired()) {
-				run.fail(i, st.A, "C15", fmt.Sprintf("%+v returns %q on the replica (phase %s), %q on the reference", st.Args, retB, phase, retA))
+			for k := range Ds {
+				if retDs[k] != retA {
+					run.fail(i, st.A, "C15", fmt.Sprintf("%+v returns %q on fresh instance %d fed the same log, %q on the reference", st.Args, retDs[k], k+1, retA))
+					return
+				}
+			}
+			if retB != retA && !(restoredOnce && run.cloneFired()) {
+				run.fail(i, st.A, "C15", fmt.Sprintf("%+v returns %q on the replica (phase %s, restored %v), %q on the reference", st.Args, retB, phase, restoredOnce, retA))
 				return
 			}
-			if F != nil {
-				if retF := F.Apply(raw); retF != retA {
-					run.fail(i, st.A, "C15", fmt.Sprintf("%+v returns %q through storeFSM.Apply, %q through the apply functions", st.Args, retF, retA))
+			if F != nil && retF != retA {
+				// (after a restore that carried a known snapshot deviation the FSM instance follows the replica)
+				if !(restoredOnce && run.cloneFired() && retF == retB) {
+					run.fail(i, st.A, "C15", fmt.Sprintf("%+v returns %q through storeFSM.Apply, %q through the apply functions (replica: %q)", st.Args, retF, retA, retB))
 					return
 				}
 			}
@@ -1775,13 +2314,19 @@ func mcReplayCase(cs *mcCase) (res mcResult) {
 				}
 			}
 		}
-		res.DumpCmps += 2
+		res.DumpCmps += 2 + len(Ds)
 		if diffs := mcDiffOf(dA, mcDump(C)); len(diffs) > 0 {
 			run.fail(i, st.A, "C15", "instance with shuffled maps diverges from the reference: "+strings.Join(diffs, "; "))
 			return
 		}
+		for k, D := range Ds {
+			if diffs := mcDiffOf(dA, mcDump(D)); len(diffs) > 0 {
+				run.fail(i, st.A, "C15", fmt.Sprintf("fresh instance %d fed the same log diverges from the reference: %s", k+1, strings.Join(diffs, "; ")))
+				return
+			}
+		}
 		if diffs := mcDiffOf(dA, mcDump(B)); len(diffs) > 0 {
-			if phase != "restored" {
+			if !restoredOnce {
 				run.fail(i, st.A, "C15", "replica (phase "+phase+") diverges from the reference: "+strings.Join(diffs, "; "))
 				return
 			}
@@ -1794,7 +2339,7 @@ func mcReplayCase(cs *mcCase) (res mcResult) {
 				pred = append(pred, x)
 			}
 			pred = append(pred, expectedA())
-			devs, why := run.attributeReplica(diffs, dA, mcDump(B), restoredKeys, mcCanonTree(c.project(B, ghost, sclean), ""), pred)
+			devs, why := run.attributeReplica(diffs, dA, mcDump(B), restoredKeys, mcCanonTree(c.project(B, ghost, sclean), ""), pred, B, subs.live, subs.maxID)
 			if why != "" {
 				run.fail(i, st.A, "C15", "restored node diverges from the node that applied everything: "+why+" | "+strings.Join(diffs, "; "))
 				return
@@ -1807,7 +2352,7 @@ func mcReplayCase(cs *mcCase) (res mcResult) {
 			res.DumpCmps++
 			ref := dA
 			what := "storeFSM instance diverges from the apply-function instance: "
-			if phase == "restored" { // F went through snapshot/restore as B did
+			if restoredOnce { // F went through snapshot/restore as B did
 				ref = mcDump(B)
 				what = "storeFSM instance restored through FSM.Snapshot/Persist/Restore diverges from the replica restored through Clone/Marshal/Unmarshal: "
 			}
